@@ -343,13 +343,19 @@ func newLogInfo(
 	return li
 }
 
-// Handlers returns a map from URL paths (with the given prefix) and AppHandler instances
-// to handle those entrypoints.
-func (li *logInfo) Handlers(prefix string) PathHandlers {
+// canonicalPrefix returns the form of a log's path prefix under which its
+// handlers are registered: with a leading slash and without trailing slashes.
+func canonicalPrefix(prefix string) string {
 	if !strings.HasPrefix(prefix, "/") {
 		prefix = "/" + prefix
 	}
-	prefix = strings.TrimRight(prefix, "/")
+	return strings.TrimRight(prefix, "/")
+}
+
+// Handlers returns a map from URL paths (with the given prefix) and AppHandler instances
+// to handle those entrypoints.
+func (li *logInfo) Handlers(prefix string) PathHandlers {
+	prefix = canonicalPrefix(prefix)
 
 	// Bind the logInfo instance to give an AppHandler instance for each endpoint.
 	ph := PathHandlers{
